@@ -93,6 +93,12 @@ var vf10ArgsCache = map[uint64]any{}
 // the factory API permits; fuzz targets do that to save a modular
 // exponentiation per execution.
 func vf10Dial(seed uint64, withTicket, cacheArgs bool) (*vf10Client, error) {
+	return vf10DialPre(seed, withTicket, cacheArgs, nil)
+}
+
+// vf10DialPre is vf10Dial with a hook that runs on the fresh wire before the
+// client starts (fault injection that must be in place from the first byte).
+func vf10DialPre(seed uint64, withTicket, cacheArgs bool, pre func(*wire.Net)) (*vf10Client, error) {
 	detrand.Seed(seed)
 	c := &vf10Client{secret: vf15Secret(seed, 0x10)}
 	c.srv = vf15Server(c.secret)
@@ -109,6 +115,9 @@ func vf10Dial(seed uint64, withTicket, cacheArgs bool) (*vf10Client, error) {
 	}
 	c.n = wire.New()
 	n := c.n
+	if pre != nil {
+		pre(n)
+	}
 	c.ep = drive.Start(n, wire.A, func() (net.Conn, error) {
 		var parsed any
 		if cacheArgs {
